@@ -691,7 +691,8 @@ def _history(w, r, rec, nevents, want_model, parse_gitlog, snap_of, deadline=Non
     # ---- initial checkout
     bob_event("dev", ["dev", "root"])
     for step in range(nevents):
-        if deadline is not None and time.time() > deadline:
+        # a guaranteed minimum also on a loaded machine: three events of every history, scenarios completely
+        if deadline is not None and time.time() > deadline and step >= 3 and flavor == "random":
             rec["log"].append("(history cut: time budget)")
             rec["cut"] = True
             return
@@ -1468,11 +1469,11 @@ def direct_git(ctx):
     n = int(os.environ.get("C12_NGIT", 0)) or ctx.scale(96, 4000)
     jobs = [(os.path.join(ctx.tmp, "g%d" % i), os.path.join(ctx.repo, "pym"), "C12g-%d-%s-%d" % (ctx.seed, ctx.tier, i)) for i in range(n)]
     results = []
-    for i in range(0, len(jobs), 32):
-        if ctx.time_left() < 25:
+    for i in range(0, len(jobs), 16):
+        if ctx.time_left() < 25 and i > 0:
             ctx.skip("direct git cases %d.. not run: time budget" % i)
             break
-        results.extend(ctx.parallel(direct_git_case, jobs[i:i + 32], workers=16))
+        results.extend(ctx.parallel(direct_git_case, jobs[i:i + 16], workers=16))
     greqs, gmeta = [], []
     for res in results:
         if res.get("skipped"):
